@@ -16,6 +16,10 @@ class NeedEnum(Exception):
         self.why = why
 
 
+class NeedDecision(Exception):
+    """a branch on a data value was reached and no decision is scheduled for it (path enumeration, machine.decisions)"""
+
+
 class Unsupported(Exception):
     """IR construct or situation outside the engine's catalogue (becomes exit 2 unless covered by a trusted summary)"""
 
